@@ -1,4 +1,5 @@
 from collections.abc import Callable
+from threading import RLock
 from typing import Any, TypeVar, cast
 
 from reactivex import Observable, abc, typing
@@ -7,7 +8,7 @@ from reactivex.disposable import (
     SerialDisposable,
     SingleAssignmentDisposable,
 )
-from reactivex.internal import curry_flip
+from reactivex.internal import curry_flip, synchronized
 from reactivex.scheduler import TimeoutScheduler
 
 _T = TypeVar("_T")
@@ -44,7 +45,10 @@ def debounce_(
         has_value = [False]
         value: list[_T] = [cast(_T, None)]
         _id: list[int] = [0]
+        # The timer fires on the scheduler's thread: serialize it with the source
+        lock = RLock()
 
+        @synchronized(lock)
         def on_next(x: _T) -> None:
             has_value[0] = True
             value[0] = x
@@ -53,22 +57,24 @@ def debounce_(
             d = SingleAssignmentDisposable()
             cancelable.disposable = d
 
+            @synchronized(lock)
             def action(scheduler: abc.SchedulerBase, state: Any = None) -> None:
-                deliver = has_value[0] and _id[0] == current_id
-                # Reset before delivering: the observer may push a new element into
-                # the source from inside on_next, which must stay pending.
-                has_value[0] = False
-                if deliver:
+                if has_value[0] and _id[0] == current_id:
+                    # Reset before delivering: the observer may push a new element
+                    # into the source from inside on_next, which must stay pending.
+                    has_value[0] = False
                     observer.on_next(value[0])
 
             d.disposable = _scheduler.schedule_relative(duetime, action)
 
+        @synchronized(lock)
         def on_error(exception: Exception) -> None:
             cancelable.dispose()
             observer.on_error(exception)
             has_value[0] = False
             _id[0] += 1
 
+        @synchronized(lock)
         def on_completed() -> None:
             cancelable.dispose()
             if has_value[0]:
@@ -114,7 +120,10 @@ def throttle_with_mapper_(
         has_value: bool = False
         value: _T = cast(_T, None)
         _id = [0]
+        # The throttle observable may fire on another thread: serialize it with the source
+        lock = RLock()
 
+        @synchronized(lock)
         def on_next(x: _T) -> None:
             nonlocal value, has_value
 
@@ -132,30 +141,34 @@ def throttle_with_mapper_(
             d = SingleAssignmentDisposable()
             cancelable.disposable = d
 
+            @synchronized(lock)
             def on_next(x: Any) -> None:
                 nonlocal has_value
-                deliver = has_value and _id[0] == current_id
-                # Reset before delivering: the observer may push a new element into
-                # the source from inside on_next, which must stay pending.
-                has_value = False
-                if deliver:
+                if has_value and _id[0] == current_id:
+                    # Reset before delivering: the observer may push a new element
+                    # into the source from inside on_next, which must stay pending.
+                    has_value = False
                     observer.on_next(value)
 
                 d.dispose()
 
+            @synchronized(lock)
             def on_completed() -> None:
                 nonlocal has_value
-                deliver = has_value and _id[0] == current_id
-                has_value = False
-                if deliver:
+                if has_value and _id[0] == current_id:
+                    has_value = False
                     observer.on_next(value)
 
                 d.dispose()
 
             d.disposable = throttle.subscribe(
-                on_next, observer.on_error, on_completed, scheduler=scheduler
+                on_next,
+                synchronized(lock)(observer.on_error),
+                on_completed,
+                scheduler=scheduler,
             )
 
+        @synchronized(lock)
         def on_error(e: Exception) -> None:
             nonlocal has_value
             cancelable.dispose()
@@ -163,6 +176,7 @@ def throttle_with_mapper_(
             has_value = False
             _id[0] += 1
 
+        @synchronized(lock)
         def on_completed() -> None:
             nonlocal has_value
             cancelable.dispose()
